@@ -1,7 +1,109 @@
-/- C05 line-protocol driver (core-only). Stub until the property's model lands. -/
+/- C05 line-protocol driver (core-only). -/
+import BV.Common.Hex
+import BV.C05.Model
+import BV.C05.DbModel
 namespace BV.C05.Driver
+open BV.Hex BV.C05
+
+abbrev T := Treap Key Val
+
+def kvStr (x : Key × Val) : String := listToHexTok x.1 ++ "=" ++ listToHexTok x.2
+
+def optKey? (s : String) : Option (Option Key) :=
+  if s == "~" then some none else (hexToList? s).map some
+
+def posStr (b : Bool) (c : Option (Key × Val)) : String :=
+  (if b then "1:" else "0:") ++ (match c with | some x => kvStr x | none => "~")
+
+structure TState where
+  vers : Array T
+  iter : Option (T × Range Key × IterSt Key Val)
+
+def parsePut? (fs : List String) : Option (Key × Val × Nat) :=
+  match fs with
+  | [k, v, p] => do
+    let k ← hexToList? k
+    let v ← hexToList? v
+    let p ← p.toNat?
+    pure (k, v, p)
+  | _ => none
+
+def treapOp (st : TState) (op : String) : Option (TState × String) :=
+  let cur := st.vers.back?.getD .nil
+  let ver? (s : String) : Option T := do
+    let n ← s.toNat?
+    st.vers[n]?
+  match op.splitOn ":" with
+  | ["p", k, v, p] => do
+    let (k, v, p) ← parsePut? [k, v, p]
+    pure ({ st with vers := st.vers.push (Treap.put cmpB k v p cur) }, "ok")
+  | ["b", items] => do
+    let ps ← (items.splitOn "/").mapM (fun it => parsePut? (it.splitOn "+"))
+    let t := ps.foldl (fun t (k, v, p) => Treap.put cmpB k v p t) cur
+    pure ({ st with vers := st.vers.push t }, "ok")
+  | ["d", k] => do
+    let k ← hexToList? k
+    pure ({ st with vers := st.vers.push (Treap.delete cmpB k cur) }, "ok")
+  | ["g", ver, k] => do
+    let t ← ver? ver
+    let k ← hexToList? k
+    pure (st, match Treap.get cmpB k t with | some v => listToHexTok v | none => "nil")
+  | ["h", ver, k] => do
+    let t ← ver? ver
+    let k ← hexToList? k
+    pure (st, if (Treap.get cmpB k t).isSome then "1" else "0")
+  | ["l", ver] => do
+    let t ← ver? ver
+    pure (st, toString t.count)
+  | ["s", ver] => do
+    let t ← ver? ver
+    pure (st, toString (Treap.size t))
+  | ["e", ver] => do
+    let t ← ver? ver
+    pure (st, "[" ++ ",".intercalate (t.toList.map kvStr) ++ "]")
+  | ["i", ver, s, l] => do
+    let t ← ver? ver
+    let s ← optKey? s
+    let l ← optKey? l
+    pure ({ st with iter := some (t, ⟨s, l⟩, ⟨true, none⟩) }, "ok")
+  | ["F"] => do
+    let (t, rg, it) ← st.iter
+    let (it', b) := Treap.iterFirst cmpB t rg it
+    pure ({ st with iter := some (t, rg, it') }, posStr b it'.cur)
+  | ["L"] => do
+    let (t, rg, it) ← st.iter
+    let (it', b) := Treap.iterLast cmpB t rg it
+    pure ({ st with iter := some (t, rg, it') }, posStr b it'.cur)
+  | ["N"] => do
+    let (t, rg, it) ← st.iter
+    let (it', b) := Treap.iterNext cmpB t rg it
+    pure ({ st with iter := some (t, rg, it') }, posStr b it'.cur)
+  | ["P"] => do
+    let (t, rg, it) ← st.iter
+    let (it', b) := Treap.iterPrev cmpB t rg it
+    pure ({ st with iter := some (t, rg, it') }, posStr b it'.cur)
+  | ["S", k] => do
+    let (t, rg, _) ← st.iter
+    let k ← hexToList? k
+    let (it', b) := Treap.iterSeekOp cmpB t rg k
+    pure ({ st with iter := some (t, rg, it') }, posStr b it'.cur)
+  | _ => none
+
+def runTreap (ops : List String) : String :=
+  let rec go (st : TState) (ops : List String) (acc : List String) : Option (List String) :=
+    match ops with
+    | [] => some acc.reverse
+    | op :: rest =>
+      match treapOp st op with
+      | some (st', out) => go st' rest (out :: acc)
+      | none => none
+  match go ⟨#[.nil], none⟩ ops [] with
+  | some outs => "|".intercalate outs
+  | none => "bad-op"
 
 def handle : List String → String
-  | _ => "unimplemented"
+  | "treap" :: _kind :: ops => runTreap ops
+  | "db" :: rest => DbModel.runDb rest
+  | _ => "bad-op"
 
 end BV.C05.Driver
